@@ -47,6 +47,7 @@ def cases(tier):
     for n in (1, 2, 3):
         yield ("write", n)
     yield ("forms",)
+    yield ("labels",)
     for ncols in (1, 2, 3):
         yield ("long", ncols)
 
@@ -262,6 +263,54 @@ def _run_forms(case):
     return {"evals": evals, "nontrivial": evals, "judged": counters["judged"], "viols": viols[:20], "outcomes": outcomes, "sample": sample}
 
 
+LABELS = ["#12", "# a note", "plot-1", "7", "", "x y", "#13, north", "--", "NA", "//c", ";x", "%1", "!"]
+
+
+def _run_labels(case):
+    """a TEXT column next to the numeric one (plot tags, codes, notes - also cells that look like comments or separators in other formats):
+    reading the numeric column is unaffected by the other column, row for row; every label at every row, label column first / last,
+    and as the header of that column"""
+    import csv as _csv
+
+    work = snapshot.scratch_dir("c17_")
+    viols, outcomes = [], {}
+    counters = {"judged": 0}
+    evals = 0
+    sample = None
+    col = [1.5, -9999.0, 0.25, 4.0]
+    try:
+        for lab in LABELS:
+            for pos in range(len(col) + 1):  # pos == len(col): the label is the HEADER of the text column
+                for first in (True, False):
+                    labels = ["t%d" % r for r in range(len(col))]
+                    head = "tag"
+                    if pos < len(col):
+                        labels[pos] = lab
+                    else:
+                        head = lab if lab else "tag"
+                    buf = io.StringIO()
+                    w = _csv.writer(buf, lineterminator="\n")
+                    w.writerow([head, "B"] if first else ["B", head])
+                    for lb, x in zip(labels, col):
+                        w.writerow([lb, repr(x)] if first else [repr(x), lb])
+                    text = buf.getvalue()
+                    with open(os.path.join(work, "lab.csv"), "w", newline="") as f:
+                        f.write(text)
+                    for mv in (None, -9999):
+                        res = _read(work, "lab.csv", "B", mv, None)
+                        evals += 1
+                        tag = {"file": text, "field": "B", "MissingVal": mv}
+                        sample = tag
+                        oc = _check_read(res, col, mv, None, viols, tag, counters)
+                        if oc != "ok" and viols:
+                            viols[-1]["key"] += ":text-column"
+                        outcomes["labels:" + oc] = outcomes.get("labels:" + oc, 0) + 1
+    finally:
+        import shutil
+        shutil.rmtree(work, ignore_errors=True)
+    return {"evals": evals, "nontrivial": evals, "judged": counters["judged"], "viols": viols[:20], "outcomes": outcomes, "sample": sample}
+
+
 def _run_long(case):
     """long tables (named sizes 24, 30, 100, 1000 rows) of decimals: one, two and three columns, with and without missing markers"""
     _, ncols = case
@@ -449,4 +498,4 @@ def _run_write(case):
 
 def run(case):
     case = tuple(case)
-    return {"read": _run_read, "headers": _run_headers, "faults": _run_faults, "write": _run_write, "forms": _run_forms, "long": _run_long}[case[0]](case)
+    return {"read": _run_read, "headers": _run_headers, "faults": _run_faults, "write": _run_write, "forms": _run_forms, "long": _run_long, "labels": _run_labels}[case[0]](case)
